@@ -353,7 +353,7 @@ def _conform_kind(scratch, module, trace_files, kind, flags, consts_for, name, t
                     if pos == 0:
                         continue
                     break
-                if j["ev"] not in ("Begin", "Quiesce", "Winddown", "Census", "HStart", "CNewStreamCall",
+                if j["ev"] not in ("Begin", "Quiesce", "Winddown", "Census", "CensusT", "HStart", "CNewStreamCall",
                                    "CNewStreamRet", "Cancel", "HCtxWait", "HSetHeaderCall", "HSendHeaderCall"):
                     nxt = {k: v for k, v in j.items() if k not in ("nb",)}
                     break
